@@ -88,6 +88,7 @@ def reader_keys(tree, f, var="definition"):
 
 
 def r1_record_keys(chk: Check):
+    init_tasks_of_the_task_only(chk)
     tree = chk.tree
     f, g, var, wk = writer_keys(chk)
     loc = chk.loc(f.module, f.node)
@@ -356,7 +357,138 @@ def r4_all_values_written(chk: Check):
     chk.require("ignored" not in t and "constant" not in t, chk.fkey(xv, "no filter"), "xpmvalues() filters arguments", chk.loc(xv.module, xv.node))
 
 
+def init_tasks_of_the_task_only(chk: Check):
+    """A parameter file also holds the definitions of the upstream tasks, each with the init tasks *it* was submitted with.  The job must run
+    the init tasks of the task being run -- the last definition -- and not those of the tasks it depends on (pre-tasks, in contrast, are
+    gathered over all definitions)"""
+    tree = chk.tree
+    f = tree.func("core.objects", "ConfigInformation.fromParameters")
+    loc = chk.loc(f.module, f.node)
+    nested = {x.name: x for x in ast.walk(f.node) if isinstance(x, (ast.FunctionDef, ast.AsyncFunctionDef)) and x is not f.node}
+
+    def enclosing_def(x):
+        p = getattr(x, "_parent", None)
+        while p is not None and not isinstance(p, (ast.FunctionDef, ast.AsyncFunctionDef)):
+            p = getattr(p, "_parent", None)
+        return p
+
+    def key_is_init(k, at):
+        if isinstance(k, ast.Constant):
+            return k.value == "init-tasks"
+        if isinstance(k, ast.Name):
+            d = enclosing_def(at)
+            if d is not None and d.name in nested:
+                ps = [a.arg for a in d.args.args]
+                if k.id in ps:
+                    i = ps.index(k.id)
+                    for c in ast.walk(f.node):
+                        if isinstance(c, ast.Call) and isinstance(c.func, ast.Name) and c.func.id == d.name:
+                            v = c.args[i] if i < len(c.args) else next((kw.value for kw in c.keywords if kw.arg == k.id), None)
+                            if isinstance(v, ast.Constant) and v.value == "init-tasks":
+                                return True
+        return False
+
+    reads = []
+    for x in ast.walk(f.node):
+        if isinstance(x, ast.Call) and isinstance(x.func, ast.Attribute) and x.func.attr == "get" and x.args and key_is_init(x.args[0], x):
+            reads.append((x, x.func.value))
+        elif isinstance(x, ast.Subscript) and isinstance(x.ctx, ast.Load) and key_is_init(x.slice, x):
+            reads.append((x, x.value))
+    chk.min_instances(len(reads), 1, "reads of the init-tasks key in fromParameters")
+    for x, recv in reads:
+        verdict = None
+        if src(recv).replace(" ", "") in ("definitions[-1]", "definitions[len(definitions)-1]"):
+            verdict = True
+        elif isinstance(recv, ast.Name):
+            p = getattr(x, "_parent", None)
+            while p is not None:
+                if isinstance(p, (ast.For, ast.AsyncFor)) and src(p.target) == recv.id:
+                    verdict = False if src(p.iter) in ("definitions", "reversed(definitions)") else verdict
+                    break
+                if isinstance(p, (ast.ListComp, ast.GeneratorExp, ast.SetComp, ast.DictComp)):
+                    for gen in p.generators:
+                        if src(gen.target) == recv.id and src(gen.iter) in ("definitions", "reversed(definitions)"):
+                            verdict = False
+                p = getattr(p, "_parent", None)
+            if verdict is None:
+                d = enclosing_def(x)
+                stores = [st for st in ast.walk(d) if isinstance(st, ast.Assign) and len(st.targets) == 1 and src(st.targets[0]) == recv.id]
+                if len(stores) == 1 and src(stores[0].value).replace(" ", "") == "definitions[-1]":
+                    verdict = True
+        if verdict is None:
+            raise Undecided(f"fromParameters: cannot tell which definition `{src(x)[:60]}` reads the init tasks from")
+        chk.require(verdict, chk.fkey(f, "init tasks of the task being run only"),
+                    f"`{src(x)[:70]}` reads the init tasks of every definition of the parameter file: the job would also execute the init tasks its upstream tasks were submitted with", loc)
+
+
+def fresh_accumulators(chk: Check):
+    """The list of definitions of one saved object must be its own: an accumulator parameter with a mutable default (evaluated once, shared by all
+    calls) must be supplied by every caller, or later saves carry the definitions of earlier ones (duplicate ids at load time)"""
+    tree = chk.tree
+    MUT = ("append", "extend", "insert", "update", "add", "setdefault", "__setitem__")
+    found = 0
+    for f in tree.nontest_funcs():
+        if f.module.name not in ("core.serialization", "core.objects") or isinstance(f.node, ast.Lambda):
+            continue
+        a = f.node.args
+        pos = a.posonlyargs + a.args
+        defs = [None] * (len(pos) - len(a.defaults)) + list(a.defaults)
+        for idx, (prm, d) in enumerate(list(zip(pos, defs)) + list(zip(a.kwonlyargs, a.kw_defaults))):
+            if d is None or not (isinstance(d, (ast.List, ast.Dict, ast.Set)) or (isinstance(d, ast.Call) and dotted(d.func) in ("list", "dict", "set") and not d.args)):
+                continue
+            name = prm.arg
+            accum = _fills(tree, f, name, 3)
+            if not accum:
+                continue
+            found += 1
+            is_method = f.cls is not None and not any(dotted(dec) == "staticmethod" for dec in f.node.decorator_list)
+            pidx = idx - (1 if is_method else 0) if idx < len(pos) else None
+            for ff in tree.nontest_funcs():
+                for c in fn_calls(ff.node):
+                    if tail(c) != f.node.name:
+                        continue
+                    given = any(k.arg == name for k in c.keywords) or (pidx is not None and len(c.args) > pidx) or any(k.arg is None for k in c.keywords) or any(isinstance(x, ast.Starred) for x in c.args)
+                    chk.require(given, chk.fkey(ff, f"passes the accumulator `{name}` of {f.node.name}"),
+                                f"`{src(c)[:70]}` in `{ff.qual}` relies on the default of `{name}` of `{f.qual}`, a mutable default that the function fills: the object is shared by all such calls, "
+                                "so a second save in the same process also contains the definitions of the first", chk.loc(ff.module, c))
+    chk.count("accumulators_with_mutable_default", found)
+    if not found:
+        chk.ok("core.serialization:no accumulator with a mutable default", "")
+
+
+def _fills(tree, f, name, depth):
+    """does `f` (or a package callee it hands the parameter to) add to its parameter `name`?"""
+    MUT = ("append", "extend", "insert", "update", "add", "setdefault")
+    for x in body_walk(f.node):
+        if isinstance(x, ast.Return) and isinstance(x.value, ast.Name) and x.value.id == name:
+            return True
+        if isinstance(x, ast.Subscript) and isinstance(x.ctx, ast.Store) and isinstance(x.value, ast.Name) and x.value.id == name:
+            return True
+    for c in fn_calls(f.node):
+        if isinstance(c.func, ast.Attribute) and isinstance(c.func.value, ast.Name) and c.func.value.id == name and c.func.attr in MUT:
+            return True
+        if depth <= 0:
+            continue
+        for i, x in enumerate(c.args):
+            if isinstance(x, ast.Name) and x.id == name:
+                for g in tree.nontest_funcs():
+                    if isinstance(g.node, ast.Lambda) or g.node.name != tail(c):
+                        continue
+                    ps = [p.arg for p in g.node.args.posonlyargs + g.node.args.args]
+                    if ps and ps[0] in ("self", "cls"):
+                        ps = ps[1:]
+                    if i < len(ps) and _fills(tree, g, ps[i], depth - 1):
+                        return True
+        for k in c.keywords:
+            if isinstance(k.value, ast.Name) and k.value.id == name and k.arg:
+                for g in tree.nontest_funcs():
+                    if not isinstance(g.node, ast.Lambda) and g.node.name == tail(c) and _fills(tree, g, k.arg, depth - 1):
+                        return True
+    return False
+
+
 def r5_sharing(chk: Check):
+    fresh_accumulators(chk)
     tree = chk.tree
     f = tree.func("core.objects", "ConfigInformation.__get_objects__")
     g = CFG(f.node)
